@@ -3,6 +3,8 @@
 //!   mfi run <suite> <cases> <out>      one output line per case line
 mod consts;
 mod gen_errs;
+#[allow(dead_code, unused_imports, unused_variables)]
+mod sim;
 mod suites;
 mod util;
 
@@ -16,12 +18,18 @@ fn main() {
         Some("consts") => {
             std::fs::write(&args[2], consts::dump()).expect("write consts");
         }
+        Some("simtest") => match sim::selftest::run() {
+            Ok(r) => eprintln!("{}", r),
+            Err(e) => {
+                eprintln!("SIMTEST FAILED: {}", e);
+                std::process::exit(1);
+            }
+        },
         Some("run") => {
             let suite = args[2].as_str();
-            let f: fn(&str) -> String = match suite {
-                "panic" => suites::panic::run,
-                "curve" => suites::curve::run,
-                _ => {
+            let f: fn(&str) -> String = match suites::lookup(suite) {
+                Some(f) => f,
+                None => {
                     eprintln!("unknown suite {}", suite);
                     std::process::exit(2);
                 }
